@@ -15,7 +15,7 @@ open HC HC.Worker
 
 /-- the two worker classes as the code is now (the flags are re-measured on every run of the check).
     `Runtime.asyncioBeforeFixes` / `Runtime.trioBeforeFixes` / `Runtime.asyncioBeforeF32` are kept for the record: the runs
-    that refuted the full statements before the `fix:` commits 4c08dc8 (F18), b7ab22b (F31) and 1b98b61 (F32) are theorems
+    that refuted the full statements before the `fix:` commits 4c08dc8 (F18), b7ab22b (F31) and 5d167c5 (F32) are theorems
     about them.  Each clause appears as
     `…_of_flags` (arbitrary runtime, hypotheses on flags) and as the full statement for the current runtimes. -/
 def Current (rt : Runtime) : Prop := rt = Runtime.asyncio ∨ rt = Runtime.trio
